@@ -23,7 +23,8 @@ def ill_formed(rnd, prog):
     prog = copy.deepcopy(prog)
     pos = rnd.randint(2, len(prog))
     kind = rnd.choice(["undef", "undef-after-block", "break", "continue", "label", "return", "return-filter",
-                       "matchtypes", "undef-in-fn", "return-in-block"])
+                       "matchtypes", "undef-in-fn", "return-in-block", "return-filter-in-fn",
+                       "return-filter-in-closure"])
     if kind == "undef":
         ins = [obs(bin_("+", ident("nosuchname"), I(1)))]
     elif kind == "undef-after-block":
@@ -42,9 +43,43 @@ def ill_formed(rnd, prog):
         ins = [block([expr(if_(lit(vbool(False)), [ret()]))])]
     elif kind == "return-filter":
         ins = [filt(lit(vbool(True)), [ret(I(1))])]
+    elif kind == "return-filter-in-fn":
+        # a filter action is not a function body, wherever the filter statement is written
+        ins = [fndef("ff7", ["a"], [filt(lit(vbool(True)), [ret(I(1))]), expr(I(0))])]
+    elif kind == "return-filter-in-closure":
+        ins = [let("ff6", {"t": "fn", "n": "", "ps": [], "body": [filt(lit(vbool(True)), [expr(if_(lit(vbool(False)), [ret()]))]), expr(I(0))]})]
     else:
         ins = [obs(match(I(1), [arm([plit(vint(1))], [expr(I(1))]), arm([plit(vchar("a"))], [expr(I(2))])]))]
     return kind, prog[:pos] + ins + prog[pos:]
+
+
+def structured_sample(tier):
+    """a strided sample of the deterministic families the neighbouring properties enumerate (scope skeletons as
+    function bodies, loop nests, control transfers in operand positions): whole-program behaviour is this
+    property's business whatever construct carries it"""
+    from . import c04, c05, c07
+    out = []
+    stride = 9 if tier == "quick" else 2
+    k = 0
+    seen = set()
+    for sk in c04.skeletons(4, 2, False, False):
+        key = repr(sk)
+        if key in seen or not any(kd in ("U", "A", "F") for kd, _ in c04.flatten(sk)):
+            continue
+        seen.add(key)
+        k += 1
+        if k % stride:
+            continue
+        en = c04.Enum()
+        inner = c04.build(sk, en, 1, True)
+        out.append(("skeleton-in-function", [OBS_DECL, fndef("w", [], inner + [expr(I(0))]), obs(call("w"))]))
+    for n, (tag, prog) in enumerate(c05.loop_nests(2)):
+        if n % stride == 0:
+            out.append(("loop-nest", prog))
+    for n, (tag, prog) in enumerate(c07.ctrl_programs()):
+        if "ctrl=return" in tag and n % 2 == 0:
+            out.append(("control-transfer-in-operand", prog))
+    return out
 
 
 def run(rep, tier, seed):
@@ -52,6 +87,8 @@ def run(rep, tier, seed):
     rnd = random.Random(seed)
     n = 2500 if tier == "quick" else 40000
     items = []
+    for i, (tag, prog) in enumerate(structured_sample(tier)):
+        items.append({"id": "s%d" % i, "prog": prog, "tag": tag})
     for i in range(n):
         prog = random_program(rnd, depth=rnd.choice([1, 2, 2, 3]))
         items.append({"id": "p%d" % i, "prog": prog, "tag": "random"})
@@ -68,14 +105,15 @@ def run(rep, tier, seed):
     rep.cov["rule"] = ("seeded random programs (3-8 top-level statements, expression depth <= 3, function nesting <= 2, "
                        "loop bounds <= 4, recursion depth <= 5) over literals incl. integer boundaries, operators, let / "
                        "assignment, arrays, maps, indexing, functions, closures, recursion, match, labelled loops, with "
-                       "probe calls making evaluation order observable; every 5th program also in an ill-formed "
+                       "probe calls making evaluation order observable, plus a strided sample of the scope-skeleton, loop-nest "
+                       "and control-transfer families of C04 / C05 / C07; every 5th program also in an ill-formed "
                        "variant; distinct = distinct source texts")
     rep.cov["exhaustive"] = False
     for it in items[:2]:
         rep.sample({"src": it["src"], "out": it["out"]})
     for it, out, v in bad:
         delta = progs.outcome_delta(v["exp"], out)
-        if it["tag"].startswith("illformed"):
+        if it["tag"].startswith("illformed") or it["tag"] in ("skeleton-in-function", "loop-nest", "control-transfer-in-operand"):
             sig = "%s %s" % (it["tag"], delta)
         else:
             sig = "random-program %s" % delta
